@@ -11,10 +11,12 @@ TECHNIQUE = ('exhaustive enumeration, by reflection over every declared data-typ
              '(defaulted members absent or present) / copy / nested-write sequences; oracle = canonical value of a fresh '
              'instance unchanged and no nested object shared by identity')
 
-KINDS = ('new', 'parse-absent', 'parse-present', 'copy-of-parse-absent', 'mk_copy', 'parse-absent-again')
+KINDS = ('new', 'parse-absent', 'parse-present', 'copy-of-parse-absent', 'mk_copy', 'parse-absent-again',
+         'populated', 'mk_copy-of-populated', 'deepcopy-of-populated', 'parse-of-populated', 'populated-again')
 
 
-def obtain(cls, kind, proto):
+def obtain(cls, kind, proto, extra=None):
+    extra = extra or {}
     if kind == 'new':
         return reflect.new(cls)
     if kind in ('parse-absent', 'parse-absent-again'):
@@ -36,6 +38,28 @@ def obtain(cls, kind, proto):
         if hasattr(src, 'mk_copy'):
             return src.mk_copy()
         return None
+    if kind in ('populated', 'populated-again'):
+        inst = reflect.new(cls)
+        reflect.populate(inst, depth=2)
+        return inst
+    if kind == 'mk_copy-of-populated':
+        src = extra.get('populated')
+        return src.mk_copy() if src is not None and hasattr(src, 'mk_copy') else None
+    if kind == 'deepcopy-of-populated':
+        src = extra.get('populated')
+        if src is None:
+            return None
+        if reflect.is_state(cls):
+            dc = src.descriptor_container
+            src.descriptor_container = None
+            c = copy.deepcopy(src)
+            c.descriptor_container = dc
+            src.descriptor_container = dc
+            return c
+        return copy.deepcopy(src)
+    if kind == 'parse-of-populated':
+        src = extra.get('populated')
+        return reflect.from_node(cls, reflect.to_node(src, lenient=True), proto) if src is not None else None
     raise ValueError(kind)
 
 
@@ -60,7 +84,7 @@ def check_class(acc, item):
     instances = {}
     for kind in KINDS:
         try:
-            inst = obtain(cls, kind, proto)
+            inst = obtain(cls, kind, proto, instances)
         except Exception as ex:  # noqa: BLE001
             acc.outcome(f'obtain-failed:{kind}')
             acc.note(f'obtain_failed_{qname}_{kind}', repr(ex)[:120])
@@ -132,6 +156,43 @@ def check_class(acc, item):
                 acc.violation(f'later-parsed-instance-changed/{qname}/{kind}/{pth}',
                               {'class': qname, 'written_on': kind, 'path': pth},
                               case={'cls': qname, 'kind': kind, 'path': list(path)})
+                return
+    # ---- assigning None to a member and then writing through the value read back must stay private as well
+    for kind in ('new', 'populated-again'):
+        inst = instances.get(kind)
+        if inst is None:
+            continue
+        for name, _prop in inst.sorted_container_properties():
+            try:
+                setattr(inst, name, None)
+            except Exception:  # noqa: BLE001  the API may reject None
+                continue
+            try:
+                v = getattr(inst, name)
+            except Exception:  # noqa: BLE001
+                continue
+            if not (reflect.is_struct(v) or isinstance(v, list)):
+                continue
+            acc.transition()
+            if id(v) in defaults:
+                acc.violation(f'class-default-handed-out/{qname}/after-assigning-None/{name}',
+                              {'class': qname, 'path': name}, case={'cls': qname, 'kind': kind, 'path': [name]})
+                continue
+            wrote = False
+            if isinstance(v, list):
+                v.append('SENTINEL')
+                wrote = True
+            else:
+                for p2 in reflect.scalar_paths(v, depth=2):
+                    try:
+                        if reflect.write_at(v, p2):
+                            wrote = True
+                            break
+                    except Exception:  # noqa: BLE001
+                        continue
+            if wrote and _canon(reflect.new(cls)) != baseline:
+                acc.violation(f'fresh-instance-changed/{qname}/after-assigning-None/{name}',
+                              {'class': qname, 'path': name}, case={'cls': qname, 'kind': kind, 'path': [name]})
                 return
     acc.notes.pop('_bp_' + qname, None)
     acc.add('nested-writes', n_writes)
